@@ -509,6 +509,12 @@ func (e *Engine) report(st *State, v *Violation) {
 		sort.Strings(b)
 		key += "|" + strings.Join(b, ";")
 	}
+	for _, tg := range st.Tags {
+		// scenario tags with concrete values distinguish findings (known-finding signatures use them)
+		if t, ok := tg.Val.(*term.Term); ok && t.IsConst() {
+			key += "|" + tg.Name + "=" + t.String()
+		}
+	}
 	if e.violSeen[key] && !e.ReportAll {
 		// already have a counterexample for this label; still must know if this one is feasible? no: one is enough
 		return
